@@ -182,7 +182,7 @@ let skel (cfgs : string) (f : string) : string =
 let run (toks : string list) : string =
   match toks with
   | "K" :: cfgs :: f :: _ -> skel cfgs f
-  | "S" :: _ -> "search ok"
+  | "S" :: rest -> String.concat " " rest      (* monitor-only search: nothing to replay, the verdict is echoed *)
   | "oneshot" :: cfgs :: _ ->
       (match split_on "||" toks with
        | scen :: body :: rest ->
